@@ -40,7 +40,8 @@ fn write_replay(prop: &str, f: &Failure, seed: u64) -> PathBuf {
     });
     let text = serde_json::to_string_pretty(&body).unwrap();
     let h = stable_hash(&text);
-    let path = dir.join(format!("{}-{:016x}.json", f.part, h));
+    let lane = if cfg!(debug_assertions) { "" } else { "release-lane-" };
+    let path = dir.join(format!("{lane}{}-{:016x}.json", f.part, h));
     std::fs::write(&path, text).expect("write replay");
     path
 }
@@ -155,11 +156,20 @@ pub fn main_entry() {
                 .map(|n| n.get())
                 .unwrap_or(4)
         });
+    // release lane: this binary was built without debug assertions / overflow checks; it runs the library-level
+    // parts on a fraction of the cases (other cases than the main lane) and reports into a side file
+    let release_lane = std::env::var("VERIF_LANE").map(|l| l == "release").unwrap_or(false);
+    if release_lane && cfg!(debug_assertions) {
+        eprintln!("VERIF_LANE=release needs the binary of profile relcheck");
+        std::process::exit(2);
+    }
+    let seed = if release_lane { seed ^ 0x5eed_0000_0000 } else { seed };
     let ctx = Ctx {
         prop: id.clone(),
         tier,
         seed,
         threads,
+        permille: if release_lane { 300 } else { 1000 },
     };
     let spec = props::spec(&id, tier).unwrap_or_else(|| {
         eprintln!("unknown property {id}");
@@ -203,6 +213,11 @@ pub fn main_entry() {
     // 2. generated search
     if violation.is_none() {
         for part in &spec.parts {
+            // parts that drive separately built binaries (CLI, service, feature probes) have no release lane
+            let external = part.name().starts_with("cli") || ["feature-lanes", "probes", "web-storage"].contains(&part.name());
+            if release_lane && external {
+                continue;
+            }
             let mut st = Stats::default();
             let t0 = Instant::now();
             let fail = part.run(&ctx, &mut st);
@@ -244,7 +259,7 @@ pub fn main_entry() {
         if violation.is_some() { 1 } else { 0 },
         None,
     );
-    let evdir = verif_root().join("evidence");
+    let evdir = if release_lane { verif_root().join("target").join("evidence-release") } else { verif_root().join("evidence") };
     let _ = std::fs::create_dir_all(&evdir);
     std::fs::write(
         evdir.join(format!("{id}.json")),
@@ -259,8 +274,9 @@ pub fn main_entry() {
         );
     }
     println!(
-        "{id} {}: evaluations={} distinct_nontrivial={} wall={:.1}s seed={seed}",
+        "{id} {}{}: evaluations={} distinct_nontrivial={} wall={:.1}s seed={seed}",
         tier.name(),
+        if release_lane { " (release lane: no debug assertions, no overflow checks)" } else { "" },
         total.evaluations,
         total.nontrivial.len(),
         wall
